@@ -233,6 +233,9 @@ func (w *World) verifyFunc(fn *ssa.Function, c *FuncContract) (res *FuncResult) 
 	}
 	eenv.lookup = func(s *State, name string) (*Val, bool) { return fr.lookupLocal(s, name, token.NoPos) }
 	for _, e := range c.Ensures {
+		if e.Assumed {
+			continue
+		}
 		g, err := eenv.evalBool(e.Expr)
 		if err != nil {
 			vc.diag("%s: ensures %q: %v", name, e.Text, err)
@@ -247,6 +250,42 @@ func (w *World) verifyFunc(fn *ssa.Function, c *FuncContract) (res *FuncResult) 
 			continue
 		}
 		x.oblige(out, "crash", "at return: "+ci.Text, fn.Pos(), g, ci.Tags, false)
+	}
+	// ghost frame: callers assume that a ghost variable the assigns clause does
+	// not name keeps its value (`assigns *` speaks about program memory only)
+	{
+		listed := map[string]bool{}
+		for _, a := range c.Assigns {
+			if strings.HasPrefix(a, "ghost.") {
+				listed[strings.TrimPrefix(a, "ghost.")] = true
+			}
+		}
+		var names []string
+		for n := range x.ghosts {
+			names = append(names, n)
+		}
+		sort.Strings(names)
+		for _, n := range names {
+			gc := x.ghosts[n]
+			if listed[n] {
+				continue
+			}
+			ov, ok1 := fr.entry.cells[gc]
+			nv, ok2 := out.cells[gc]
+			if !ok1 || !ok2 || len(ov.L) != len(nv.L) {
+				continue
+			}
+			var eqs []string
+			for i := range ov.L {
+				if ov.L[i] != nv.L[i] {
+					eqs = append(eqs, tEq(ov.L[i], nv.L[i]))
+				}
+			}
+			if len(eqs) == 0 {
+				continue
+			}
+			x.oblige(out, "frame", "ghost."+n+" unchanged (not named in assigns)", fn.Pos(), tAnd(eqs...), nil, false)
+		}
 	}
 	return
 }
